@@ -15,6 +15,7 @@ import (
 	"strings"
 	"time"
 
+	"verif/checker/internal/astx"
 	"verif/checker/internal/core"
 	"verif/checker/internal/rules"
 )
@@ -136,6 +137,7 @@ func main() {
 
 	configs := []core.LoadOptions{{}}
 	if *tier == "thorough" {
+		astx.DefaultMaxVisits = 3
 		configs = append(configs, core.LoadOptions{GOARCH: "386"}, core.LoadOptions{Tags: "verif"})
 	}
 
